@@ -3,6 +3,7 @@
   `C07Parts`: type / size / length facts of every constructor; `C07More`: byte-exact images and accessor read-back for all
   argument values; `Layout`: the source-derived ID and layout facts.
 -/
+import Mb2.Props.FnsGetters
 import Mb2.Props.FnsBoxedCtor
 import Mb2.Props.FnsCast
 import Mb2.Props.FnsCtor
